@@ -208,6 +208,60 @@ def run(ctx):
                 cls.clear_caches()
             if accepts(cls, sch):
                 violations.append({"signature": "isolation:%s" % kind, "what": "the %s accepts a %s defined on another subclass" % (who, kind), "replay": rp})
+    # the same extension rules behave alike at every depth: a rules set built from a subclass's coercers / rename handlers /
+    # check_with methods (some of them failing) gives the same value and the same number of errors at the top level and planted
+    # below a dict-schema, a list-schema, valuesrules and items
+    class Deep(cerberus.Validator):
+        def _normalize_coerce_twice(self, value):
+            return value * 2
+
+        def _normalize_coerce_boom(self, value):
+            raise ValueError("boom")
+
+        def _normalize_coerce_upper(self, value):
+            return value.upper()
+
+        def _check_with_short(self, field, value):
+            if isinstance(value, str) and len(value) > 2:
+                self._error(field, "too long")
+    for i in range(60 if not thorough else 600):
+        chain = [rng.choice(['twice', 'boom', 'upper', 'twice']) for _ in range(rng.randrange(1, 4))]
+        rules = {'coerce': chain if rng.random() < 0.8 else chain[0]}
+        if rng.random() < 0.5:
+            rules['check_with'] = 'short'
+        if rng.random() < 0.3:
+            rules['type'] = 'string'
+        val = rng.choice(['x', 'ab', 3, None, ['q']])
+        shapes = {'top': ({'f': rules}, {'f': val}, lambda d: d.get('f')),
+                  'dict-schema': ({'f': {'type': 'dict', 'schema': {'g': rules}}}, {'f': {'g': val}}, lambda d: d['f'].get('g')),
+                  'list-schema': ({'f': {'type': 'list', 'schema': rules}}, {'f': [val]}, lambda d: d['f'][0]),
+                  'valuesrules': ({'f': {'type': 'dict', 'valuesrules': rules}}, {'f': {'k': val}}, lambda d: d['f'].get('k')),
+                  'items': ({'f': {'type': 'list', 'items': [rules]}}, {'f': [val]}, lambda d: d['f'][0]),
+                  'dict-in-list': ({'f': {'type': 'list', 'schema': {'type': 'dict', 'schema': {'g': rules}}}}, {'f': [{'g': val}]}, lambda d: d['f'][0].get('g'))}
+        outs = {}
+        for name, (sch, doc, get) in shapes.items():
+            try:
+                v = Deep(copy.deepcopy(sch))
+                ok = v.validate(copy.deepcopy(doc))
+
+                def leafs(errs):
+                    n = []
+                    for e in errs:
+                        if e.child_errors and not e.is_logic_error:
+                            n.extend(leafs(e.child_errors))
+                        else:
+                            n.append(e.code)
+                    return sorted(n)
+                outs[name] = (ok, repr(get(v.document)), leafs(v._errors))
+            except Exception as e:
+                outs[name] = ("raise", type(e).__name__)
+        cases += 1
+        dist["same-rules-at-depth"] += 1
+        bad = [k for k in outs if outs[k] != outs['top']]
+        if bad:
+            violations.append({"signature": "depth-uniformity:" + bad[0],
+                               "what": "rules %r on %r: at the top level %r, below %s %r" % (rules, val, outs['top'], bad[0], outs[bad[0]]),
+                               "replay": {"rules": common.jval(rules), "value": common.jval(val), "outcomes": {k: repr(x) for k, x in outs.items()}}})
     # siblings (and a grandchild) that define a rule of the SAME name with different argument schemas: each class
     # checks constraints against its own declaration, whatever was defined or used before
     def mk(name, parent, doc):
